@@ -4,7 +4,7 @@
    Not provable here (exercised by harness/conc under the race detector instead): the Go scheduler, the Go memory model,
    runtime aborts such as "concurrent map writes", and that the translator's conservative AST analysis missed nothing.
    Only theorem statements closed by `exact`, each followed by Print Assumptions. *)
-From Tables Require Import ModelLock Lock GenLockFacts.
+From Tables Require Import ModelLock Lock GenLockFacts ModelFace Face.
 Local Open Scope nat_scope.
 Local Open Scope list_scope.
 
@@ -75,6 +75,21 @@ Proof.
             (fun i Hi => @eq_ind_r (list fact) [] (fun l => mkth [] (flat_map (body_of gen_facts) l) = mkth [] []) eq_refl (calls i) (Hidle i Hi)) R)).
 Qed.
 Print Assumptions tables_race_and_deadlock_free.
+
+
+(* Face table (fw/face/table.go: sync.Map + atomic FaceID counter, mirrored in dispatch.FaceDispatch).  What EVERY
+   sequential order of Add/Remove operations produces: the FaceIDs handed out are consecutive from the counter (so no
+   two faces ever share an id), and afterwards the table binds exactly the faces that were added and not removed, each
+   under the id its Add returned.  The search side compares the concurrent outcome with this (face rounds of harness/conc). *)
+Theorem face_table_sequential : forall t0 ops,
+  (forall b, In b (ft_faces t0) -> (fst b < ft_next t0)%N) -> wf_ops (mkfx t0 [] []) ops ->
+  let x := fx_run t0 ops in
+  map snd (fx_adds x) = nseq (ft_next t0) (List.length (fx_adds x)) /\
+  NoDup (map snd (fx_adds x)) /\
+  (forall id tok, (ft_next t0 <= id)%N ->
+     (In (id, tok) (ft_faces (fx_table x)) <-> (In (tok, id) (fx_adds x) /\ ~ In id (fx_rems x)))).
+Proof. exact face_table_sequential_thm. Qed.
+Print Assumptions face_table_sequential.
 
 (* non-vacuity: the facts are there (a RIB writer nests the FIB write lock inside the RIB lock; a lookup takes the read lock) *)
 Example c16_example :
